@@ -26,7 +26,7 @@ for d in "$@"; do
     (cd $wt && TMPDIR=/tmp/confirm-tmp-$id timeout 600 go test -vet=off -count=1 -run 'TestSeeded' $pkg 2>&1 | grep -a -E "^(--- FAIL|FAIL|ok|PASS)" | head -5)
     echo "--- (4) existing suite with patch (demo removed; expect all ok)"
     rm -f $wt/$dst
-    (cd $wt && TMPDIR=/tmp/confirm-tmp-$id go test -vet=off -count=1 -timeout 25m ./... 2>&1 | grep -v "no test files" | tail -12)
+    (cd $wt && TMPDIR=/tmp/confirm-tmp-$id go test -vet=off -count=1 -timeout 25m ./... 2>&1 | grep -a -E "^(--- FAIL|FAIL|ok|panic:)" | tail -16)
   } > $out 2>&1
   git -C /repo worktree remove --force $wt
   rm -rf /tmp/confirm-tmp-$id
